@@ -15,7 +15,7 @@ TagNameOf(ty) == ty     \* CborTag registry rows carry the same identifiers
 TagOf(ty) == ValueOfName("CborTag", ty)
 
 (* bstr / nil slot *)
-BstrOrNil(v) == IF v.t = "bytes" THEN Good(<<v.b>>) ELSE IF v.t = "null" THEN Good(<<>>) ELSE TypeErr
+BstrOrNil(v, want) == IF v.t = "bytes" THEN Good(<<v.b>>) ELSE IF v.t = "null" THEN Good(<<>>) ELSE WrongType(v, want)
 OptBytesTo(o) == IF o = <<>> THEN Nil ELSE Bs(o[1])
 
 (* ======================= Design: decode ======================= *)
@@ -26,13 +26,13 @@ RecipsFrom(a, acc) ==
   ELSE LET r == Recipient_FromCbor(a[1]) IN IF ~r.ok THEN r ELSE RecipsFrom(Tail(a), Append(acc, r.x))
 
 Recipient_FromCbor(v) ==
-  IF v.t # "array" THEN TypeErr
-  ELSE IF Len(v.a) # 3 /\ Len(v.a) # 4 THEN TypeErr
+  IF v.t # "array" THEN WrongType(v, "array")
+  ELSE IF Len(v.a) # 3 /\ Len(v.a) # 4 THEN Unexp("array", "array with 3 or 4 items")
   ELSE LET rs == IF Len(v.a) = 4
-                 THEN (IF v.a[4].t # "array" THEN TypeErr ELSE RecipsFrom(v.a[4].a, <<>>))
+                 THEN (IF v.a[4].t # "array" THEN WrongType(v.a[4], "array") ELSE RecipsFrom(v.a[4].a, <<>>))
                  ELSE Good(<<>>) IN
     IF ~rs.ok THEN rs
-    ELSE LET c == BstrOrNil(v.a[3]) IN
+    ELSE LET c == BstrOrNil(v.a[3], "bstr / null") IN
       IF ~c.ok THEN c
       ELSE LET u == Header_FromCbor(v.a[2]) IN
         IF ~u.ok THEN u
@@ -46,15 +46,15 @@ RECURSIVE SignSigsFrom(_, _)
 SignSigsFrom(a, acc) ==
   IF a = <<>> THEN Good(acc)
   ELSE LET r == Sig_FromCbor(a[1]) IN
-    IF ~r.ok THEN (IF r.err \in {"DuplicateMapKey", "OutOfRangeIntegerValue", "GAP"} THEN r ELSE TypeErr)
+    IF ~r.ok THEN (IF r.err \in {"DuplicateMapKey", "OutOfRangeIntegerValue", "GAP"} THEN r ELSE Unexp("non-signature", "map for COSE_Signature"))
     ELSE SignSigsFrom(Tail(a), Append(acc, r.x))
 
 Sign_FromCbor(v) ==
-  IF v.t # "array" THEN TypeErr
-  ELSE IF Len(v.a) # 4 THEN TypeErr
-  ELSE LET ss == IF v.a[4].t # "array" THEN TypeErr ELSE SignSigsFrom(v.a[4].a, <<>>) IN
+  IF v.t # "array" THEN WrongType(v, "array")
+  ELSE IF Len(v.a) # 4 THEN Unexp("array", "array with 4 items")
+  ELSE LET ss == IF v.a[4].t # "array" THEN WrongType(v.a[4], "array") ELSE SignSigsFrom(v.a[4].a, <<>>) IN
     IF ~ss.ok THEN ss
-    ELSE LET pl == BstrOrNil(v.a[3]) IN
+    ELSE LET pl == BstrOrNil(v.a[3], "bstr or nil") IN
       IF ~pl.ok THEN pl
       ELSE LET u == Header_FromCbor(v.a[2]) IN
         IF ~u.ok THEN u
@@ -63,10 +63,10 @@ Sign_FromCbor(v) ==
           ELSE Good([prot |-> p.x, unprot |-> u.x, payload |-> pl.x, sigs |-> ss.x])
 
 Sign1_FromCbor(v) ==
-  IF v.t # "array" THEN TypeErr
-  ELSE IF Len(v.a) # 4 THEN TypeErr
-  ELSE IF v.a[4].t # "bytes" THEN TypeErr
-  ELSE LET pl == BstrOrNil(v.a[3]) IN
+  IF v.t # "array" THEN WrongType(v, "array")
+  ELSE IF Len(v.a) # 4 THEN Unexp("array", "array with 4 items")
+  ELSE IF v.a[4].t # "bytes" THEN WrongType(v.a[4], "bstr")
+  ELSE LET pl == BstrOrNil(v.a[3], "bstr or nil") IN
     IF ~pl.ok THEN pl
     ELSE LET u == Header_FromCbor(v.a[2]) IN
       IF ~u.ok THEN u
@@ -75,12 +75,12 @@ Sign1_FromCbor(v) ==
         ELSE Good([prot |-> p.x, unprot |-> u.x, payload |-> pl.x, sig |-> v.a[4].b])
 
 Mac_FromCbor(v) ==
-  IF v.t # "array" THEN TypeErr
-  ELSE IF Len(v.a) # 5 THEN TypeErr
-  ELSE LET rs == IF v.a[5].t # "array" THEN TypeErr ELSE RecipsFrom(v.a[5].a, <<>>) IN
+  IF v.t # "array" THEN WrongType(v, "array")
+  ELSE IF Len(v.a) # 5 THEN Unexp("array", "array with 5 items")
+  ELSE LET rs == IF v.a[5].t # "array" THEN WrongType(v.a[5], "array") ELSE RecipsFrom(v.a[5].a, <<>>) IN
     IF ~rs.ok THEN rs
-    ELSE IF v.a[4].t # "bytes" THEN TypeErr
-    ELSE LET pl == BstrOrNil(v.a[3]) IN
+    ELSE IF v.a[4].t # "bytes" THEN WrongType(v.a[4], "bstr")
+    ELSE LET pl == BstrOrNil(v.a[3], "bstr") IN
       IF ~pl.ok THEN pl
       ELSE LET u == Header_FromCbor(v.a[2]) IN
         IF ~u.ok THEN u
@@ -89,10 +89,10 @@ Mac_FromCbor(v) ==
           ELSE Good([prot |-> p.x, unprot |-> u.x, payload |-> pl.x, tag |-> v.a[4].b, recips |-> rs.x])
 
 Mac0_FromCbor(v) ==
-  IF v.t # "array" THEN TypeErr
-  ELSE IF Len(v.a) # 4 THEN TypeErr
-  ELSE IF v.a[4].t # "bytes" THEN TypeErr
-  ELSE LET pl == BstrOrNil(v.a[3]) IN
+  IF v.t # "array" THEN WrongType(v, "array")
+  ELSE IF Len(v.a) # 4 THEN Unexp("array", "array with 4 items")
+  ELSE IF v.a[4].t # "bytes" THEN WrongType(v.a[4], "bstr")
+  ELSE LET pl == BstrOrNil(v.a[3], "bstr") IN
     IF ~pl.ok THEN pl
     ELSE LET u == Header_FromCbor(v.a[2]) IN
       IF ~u.ok THEN u
@@ -101,11 +101,11 @@ Mac0_FromCbor(v) ==
         ELSE Good([prot |-> p.x, unprot |-> u.x, payload |-> pl.x, tag |-> v.a[4].b])
 
 Encrypt_FromCbor(v) ==
-  IF v.t # "array" THEN TypeErr
-  ELSE IF Len(v.a) # 4 THEN TypeErr
-  ELSE LET rs == IF v.a[4].t # "array" THEN TypeErr ELSE RecipsFrom(v.a[4].a, <<>>) IN
+  IF v.t # "array" THEN WrongType(v, "array")
+  ELSE IF Len(v.a) # 4 THEN Unexp("array", "array with 4 items")
+  ELSE LET rs == IF v.a[4].t # "array" THEN WrongType(v.a[4], "array") ELSE RecipsFrom(v.a[4].a, <<>>) IN
     IF ~rs.ok THEN rs
-    ELSE LET c == BstrOrNil(v.a[3]) IN
+    ELSE LET c == BstrOrNil(v.a[3], "bstr") IN
       IF ~c.ok THEN c
       ELSE LET u == Header_FromCbor(v.a[2]) IN
         IF ~u.ok THEN u
@@ -114,9 +114,9 @@ Encrypt_FromCbor(v) ==
           ELSE Good([prot |-> p.x, unprot |-> u.x, cipher |-> c.x, recips |-> rs.x])
 
 Encrypt0_FromCbor(v) ==
-  IF v.t # "array" THEN TypeErr
-  ELSE IF Len(v.a) # 3 THEN TypeErr
-  ELSE LET c == BstrOrNil(v.a[3]) IN
+  IF v.t # "array" THEN WrongType(v, "array")
+  ELSE IF Len(v.a) # 3 THEN Unexp("array", "array with 3 items")
+  ELSE LET c == BstrOrNil(v.a[3], "bstr") IN
     IF ~c.ok THEN c
     ELSE LET u == Header_FromCbor(v.a[2]) IN
       IF ~u.ok THEN u
